@@ -31,6 +31,7 @@ const (
 	opCancelShared         // cancel the context the shared scope was created with
 	opResolveRoot          // resolve registration 0 on the provider itself
 	opCloseChild           // close the child of the shared scope
+	opResolve2             // resolve registration 2 (no dependencies) in the shared scope
 	numOps
 )
 
@@ -93,6 +94,14 @@ func H_Conc() {
 			prog[g] = append(prog[g], vrt.Pick("op"+string(rune('a'+g))+string(rune('0'+k)), 0, numOps-1))
 		}
 	}
+	if wv == 2 {
+		// registration 2 is a group member there, not an identity of its own
+		for g := 0; g < 2; g++ {
+			for _, op := range prog[g] {
+				vrt.Assume(op != opResolve2)
+			}
+		}
+	}
 	// symmetric programs: explore each unordered pair once
 	if maxOps == 1 {
 		vrt.Assume(prog[0][0] <= prog[1][0])
@@ -116,6 +125,10 @@ func H_Conc() {
 			case opResolve1:
 				if l1 == kit.LScoped {
 					m |= 2
+				}
+			case opResolve2:
+				if l2 == kit.LScoped {
+					m |= 4
 				}
 			}
 			switch op {
@@ -152,6 +165,8 @@ func H_Conc() {
 					}
 				case opResolveChild:
 					r.val, r.err = child.Get(kit.TypeS[0])
+				case opResolve2:
+					r.val, r.err = shared.Get(kit.TypeS[2])
 				case opResolveRoot:
 					r.val, r.err = p.Get(kit.TypeS[0])
 				case opCreateChild:
@@ -233,7 +248,7 @@ func H_Conc() {
 			}
 			where := -1
 			switch r.op {
-			case opResolve0, opResolve1:
+			case opResolve0, opResolve1, opResolve2:
 				where = 0
 			case opResolveChild:
 				where = 1
@@ -258,7 +273,7 @@ func H_Conc() {
 			}
 			var sc godi.Provider
 			switch r.op {
-			case opResolve0, opResolve1:
+			case opResolve0, opResolve1, opResolve2:
 				sc = shared
 			case opResolveChild:
 				sc = child
@@ -303,6 +318,32 @@ func H_Conc() {
 						vrt.Assert(kit.InfoOf(cur) == a, "C02.foreign_scoped_instance", "instance of slot", in.Slot, "resolved in one scope holds a scoped instance (slot", a.Slot, ") that is not the one its own scope hands out")
 					}
 				}
+			}
+		}
+	}
+	// C02: what a scope handed out for a scoped registration is what it keeps
+	// handing out (an entry must not fall out of the scope's table)
+	for g := 0; g < 2; g++ {
+		for _, r := range res[g] {
+			if r.err != nil || r.panicked || r.val == nil {
+				continue
+			}
+			in := kit.InfoOf(r.val)
+			if in == nil || w.Regs[in.Slot].Life != kit.LScoped {
+				continue
+			}
+			var sc godi.Provider
+			switch r.op {
+			case opResolve0, opResolve1, opResolve2:
+				sc = shared
+			case opResolveChild:
+				sc = child
+			default:
+				continue
+			}
+			again, err := sc.Get(kit.TypeS[in.Slot])
+			if err == nil {
+				vrt.Assert(kit.InfoOf(again) == in, "C02.lost_instance", "the scope handed out an instance of scoped registration", in.Slot, "and hands out another one afterwards")
 			}
 		}
 	}
